@@ -1982,6 +1982,12 @@ func (c *Cache) additionalAnswer(ctx context.Context, msg *dns.Msg) *dns.Msg {
 			// the exact locally validated proof provenance rather than
 			// attributing the NXDOMAIN to the outer alias owner.
 			msg.Rcode = dns.RcodeNameError
+			if msg.AuthenticatedData && !respCname.AuthenticatedData {
+				// The rcode is now the target's. A denial that arrived with
+				// no records at all never went through the merge above, so
+				// the alias's AD bit would otherwise vouch for it.
+				msg.AuthenticatedData = false
+			}
 			middleware.PropagateValidatedDenialResponse(ctx, respCname, msg)
 			// The outer response is now this denial, proof and all.
 			lineage.inherit()
